@@ -1128,11 +1128,25 @@ func (e *env) doListen(p lplan) *lst {
 		return nil
 	}
 	pc := p
-	if pc.burst > 0 && e.backlogLocked(1, "") {
-		// a forward sent at registration may be routed to an equal-address listener
-		// that is not being serviced; Listen (forwardList.add) would then wait behind it
-		pc.burst = 0
-		e.m.Count("listen_burst_suppressed_unserviced_backlog", 1)
+	if pc.burst > 0 {
+		// A forward sent at registration is routed to the first entry with that
+		// address, which may belong to an equal-address listener nobody is
+		// accepting on; Listen (forwardList.add) would then wait behind it, and
+		// Listen is not what C37 is about.
+		lazy := false
+		for _, x := range e.lsts {
+			if !x.eager && !x.acceptEnded {
+				lazy = true
+			}
+		}
+		switch {
+		case e.backlogLocked(1, ""):
+			pc.burst = 0
+			e.m.Count("listen_burst_suppressed_unserviced_backlog", 1)
+		case lazy && pc.burst > 1:
+			pc.burst = 1
+			e.m.Count("listen_burst_limited_lazy_listener_present", 1)
+		}
 	}
 	e.curListen = &pc
 	e.lastFwd = srvReq{}
